@@ -54,7 +54,7 @@ From Coq Require Import ZArith.
 From Carquet Require Import Base.Res Enc.DeltaBits
   Enc.PlainSpec Enc.PlainModel Enc.PlainProofs Enc.BssSpec Enc.BssModel Enc.BssProofs
   Enc.DeltaSpec Enc.DeltaModel Enc.DeltaArith Enc.DeltaProofs Enc.DeltaLenModel Enc.DeltaStrModel Enc.DeltaStrProofs
-  Enc.DictModel Enc.DictProofs.
+  Enc.DictModel Enc.DictProofs Enc.RleModel Enc.DictRleInst.
 
 (* ---------------------------------------------------------------- PLAIN *)
 Theorem plain_fixed_encode_conforms : forall k vs, Forall (fun v => v < 256 ^ N.of_nat k) vs ->
@@ -77,6 +77,29 @@ Theorem plain_byte_array_decode_accepts : forall n bs vs rest, spec_ba_dec n bs 
   plain_decode_byte_array bs (N.of_nat n) = Ok (vs, len bs - len rest).
 Proof. exact PlainProofs.plain_byte_array_decode_accepts. Qed.
 Print Assumptions plain_byte_array_decode_accepts.
+
+Theorem plain_boolean_encode_conforms : forall vs, len vs < 2 ^ 63 ->
+  spec_bool_dec (length vs) (plain_encode_boolean vs) = Some (map truth vs, []).
+Proof. exact PlainProofs.plain_boolean_encode_conforms. Qed.
+Print Assumptions plain_boolean_encode_conforms.
+
+Theorem plain_boolean_decode_accepts : forall n bs vs rest, N.of_nat n < 2 ^ 63 -> spec_bool_dec n bs = Some (vs, rest) ->
+  plain_decode_boolean bs (N.of_nat n) = Ok (vs, (N.of_nat n + 7) / 8) /\ len bs = (N.of_nat n + 7) / 8 + len rest.
+Proof. exact PlainProofs.plain_boolean_decode_accepts. Qed.
+Print Assumptions plain_boolean_decode_accepts.
+
+(* ---------------------------------------------------------------- BYTE_STREAM_SPLIT *)
+(* values as rows of k bytes: the model encoder writes exactly the K streams of the specification, and the model decoder
+   returns the rows the specification decoder returns *)
+Theorem bss_encode_eq_spec : forall k (vs : list (list N)), Forall (fun v => length v = k) vs ->
+  bss_gather k (length vs) (concat vs) = Ok (spec_bss_enc k vs).
+Proof. exact BssProofs.bss_encode_eq_spec. Qed.
+Print Assumptions bss_encode_eq_spec.
+
+Theorem bss_decode_accepts : forall k count data rows, spec_bss_dec k count data = Some rows ->
+  bss_scatter k count data = Ok (concat rows).
+Proof. exact BssProofs.bss_decode_accepts. Qed.
+Print Assumptions bss_decode_accepts.
 
 (* ---------------------------------------------------------------- DELTA_BINARY_PACKED *)
 Theorem delta64_encode_conforms : forall vs, vs <> [] -> Forall DeltaProofs.u64v vs -> len vs < W64 ->
@@ -123,3 +146,19 @@ Theorem delta_length_decode_accepts : forall bs vs rest, bytes bs -> vs <> [] ->
   delta_length_decode bs (len vs) = Ok (vs, len bs - len rest).
 Proof. exact DeltaStrProofs.delta_length_decode_accepts. Qed.
 Print Assumptions delta_length_decode_accepts.
+
+(* ---------------------------------------------------------------- DELTA_BYTE_ARRAY *)
+Theorem delta_strings_encode_conforms : forall vs bs, vs <> [] -> Forall str_ok vs -> len vs < 2 ^ 31 ->
+  delta_strings_encode vs = Ok bs -> spec_delta_strings_decode bs = Some (vs, []).
+Proof. exact DeltaStrProofs.delta_strings_encode_conforms. Qed.
+Print Assumptions delta_strings_encode_conforms.
+
+(* any legal prefix lengths (not only the longest common prefix), both length streams at geometry 128/4 *)
+Theorem delta_strings_decode_accepts : forall bs vs rest work_cap, bytes bs -> vs <> [] -> len vs < 2 ^ 31 ->
+  Forall (fun s => len s < 2 ^ 31) vs -> len (concat vs) <= work_cap ->
+  spec_delta_strings_decode bs = Some (vs, rest) ->
+  (exists st1 st2, spec_delta_decode 32 bs = Some st1 /\ ds_block st1 = 128 /\ ds_minis st1 = 4 /\
+                   spec_delta_decode 32 (ds_rest st1) = Some st2 /\ ds_block st2 = 128 /\ ds_minis st2 = 4) ->
+  delta_strings_decode bs (len vs) work_cap = Ok (vs, len bs - len rest).
+Proof. exact DeltaStrProofs.delta_strings_decode_accepts. Qed.
+Print Assumptions delta_strings_decode_accepts.
